@@ -128,13 +128,13 @@ Proof.
   split.
   - split. + unfold Y. now rewrite map_last_length, map_length, repeat_length.
     + rewrite repeat_length. intros k Hk. rewrite HY by auto.
-      rewrite (nth_indep _ O n) by (now rewrite repeat_length). rewrite nth_repeat.
+      rewrite nth_repeat_lt by auto.
       destruct (HF _ (HN k Hk)) as (A & B & C & _). destruct (k =? _); auto.
   - intros k j Hk Hj. unfold ent. rewrite HY by auto.
     destruct (HF _ (HN k Hk)) as (A & B & C & D).
     destruct (Nat.eqb_spec k (length ind - 1)%nat) as [->|Hne'].
-    + rewrite cget_cset by lia. cbn [Nat.eqb andb]. rewrite andb_true_r, <- HL.
-      destruct (j =? last ind O) eqn:E; [reflexivity|]. rewrite D, HL, E by auto. reflexivity.
+    + rewrite cget_cset by lia. cbn [Nat.eqb andb]. rewrite andb_true_r, HL, D by auto.
+      destruct (j =? _); reflexivity.
     + now apply D.
 Qed.
 
@@ -166,7 +166,7 @@ Proof.
   set (Y := map_last _ _) in *.
   assert (HE' : forall k t, k < length (repeat 2 q) -> t < nth k (repeat 2 q) O ->
             ent K Y k t = if t =? zbit pos k then (if k =? (q - 1)%nat then v else 1) else 0).
-  { intros k t Hk Ht. rewrite repeat_length in Hk. rewrite (nth_indep _ O 2), nth_repeat in Ht by (now rewrite repeat_length).
+  { intros k t Hk Ht. rewrite repeat_length in Hk. rewrite nth_repeat_lt in Ht by auto.
     rewrite HE by auto. unfold zbits. now rewrite nth_tab. }
   destruct (Z.eqb_spec j pos) as [->|Hne'].
   - rewrite (onehot_hit K Rth _ _ _ _ _ HS (zbits_inb q pos) HE').
@@ -221,7 +221,7 @@ Proof.
   set (Y := map_last _ _) in *.
   assert (HE' : forall k t, k < length (repeat 4 q) -> t < nth k (repeat 4 q) O ->
             ent K Y k t = if t =? (2 * zbit pi k + zbit pj k)%nat then (if k =? (q - 1)%nat then v else 1) else 0).
-  { intros k t Hk Ht. rewrite repeat_length in Hk. rewrite (nth_indep _ O 4), nth_repeat in Ht by (now rewrite repeat_length).
+  { intros k t Hk Ht. rewrite repeat_length in Hk. rewrite nth_repeat_lt in Ht by auto.
     rewrite HE by auto. unfold zbits2. now rewrite nth_tab. }
   destruct (Z.eqb_spec a pi) as [->|Hna]; [destruct (Z.eqb_spec b pj) as [->|Hnb]|]; cbn [andb].
   - rewrite (onehot_hit K Rth _ _ _ _ _ HS (zbits2_inb q pi pj) HE').
